@@ -19,7 +19,8 @@ EXPLANATION = (
     "object, so 'not recognised' would count as a match); (A1) the partial(handler, fallback) chain: each handler has signature "
     "(fallback, regex), calls fallback(regex) on its not-responsible branch, the chain ends in a function returning Nothing, and "
     "every handler defined for the chain is wired into it; (A2) handlers return Maybe values only (Some/Nothing/merge_intervals/recursive "
-    "call/fallback); (C1) compress_concatenation_elements only reorders or merges star/plus of the same body. NOT decided: exactness of "
+    "call/fallback); (M1) merge_intervals merges two sorted intervals into their hull and keeps them apart only with a real gap; (R7) no interval cache is keyed by the "
+    "printed (lossy) form of the regular expression; (C1) compress_concatenation_elements only reorders or merges star/plus of the same body. NOT decided: exactness of "
     "interval bounds for every recognised regex."
 )
 
@@ -158,7 +159,41 @@ def rule_c1(ctx):
                       "r r* -> r+ is only valid in the branch 'some element is starred and none is a plus'", "guarded by the star/no-plus branch")
 
 
+def rule_m1(ctx):
+    """merge_intervals: the union of two sorted, touching/overlapping intervals spans min(low) .. max(high)."""
+    H = "src/isla/helpers.py"
+    f = ctx.repo.func(H, "merge_intervals", "C15.M1")
+    g = next((n for n in ast.walk(f) if isinstance(n, ast.FunctionDef) and n.name == "merge_two_intervals"), None)
+    if g is None:
+        raise Unrecognised("C15.M1", f"{H}:merge_intervals", "merge_two_intervals not found")
+    c = f"{H}:merge_intervals.merge_two_intervals"
+    a, b = [x.arg for x in g.args.args][:2]
+    rets = [r for r in walk_local(g) if isinstance(r, ast.Return)]
+    sep = [r for r in rets if src(r.value) == f"[{a}, {b}]"]
+    mer = [r for r in rets if r not in sep]
+    ok = len(sep) == 1 and any(f_.positive and f_.text == f"{a}[1] + 1 < {b}[0]" for f_ in facts(sep[0]))
+    ctx.check(ok, "M1-merge", c, "kept apart only with a gap of at least one integer", site(g), "two intervals are kept separate although they touch or overlap (or merged although there is a gap)", f"separate iff {a}[1] + 1 < {b}[0]")
+    if len(mer) != 1:
+        raise Unrecognised("C15.M1", c, "merged-interval return not found")
+    v = src(mer[0].value).replace(" ", "")
+    good = {f"[({a}[0],max({a}[1],{b}[1]))]", f"[({a}[0],max({b}[1],{a}[1]))]", f"[(min({a}[0],{b}[0]),max({a}[1],{b}[1]))]"}
+    if v in good:
+        ctx.ok("M1-merge", c, "merged = (low of first, max of both highs)", site(mer[0]), "hull of both intervals")
+    elif "max(" not in v:
+        ctx.viol("M1-merge", c, "merged = (low of first, max of both highs)", site(mer[0]),
+                 f"the merged interval is {src(mer[0].value)}: when the second interval is nested in the first ((1, 9) and (3, 5)) its smaller upper bound replaces the larger one and numbers are lost")
+    else:
+        raise Unrecognised("C15.M1", c, f"merged interval {src(mer[0].value)} not recognised")
+    ok = any(isinstance(n, ast.Assert) and src(n.test) == f"{a}[0] <= {b}[0]" for n in walk_local(g))
+    srt = any(isinstance(n, ast.Call) and call_name(n) == "sorted" and any(k.arg == "key" and src(k.value) == "lambda interval: interval[0]" for k in n.keywords) for n in ast.walk(f))
+    ctx.check(ok and srt, "M1-merge", c, "inputs sorted by lower bound", site(f), "merging assumes intervals sorted by their lower bound", "sorted + asserted")
+
+
 def run(ctx) -> str:
+    from . import c05
+
+    ctx.guarded("R7", lambda: c05.rule_r7(ctx))
+    ctx.guarded("M1", lambda: rule_m1(ctx))
     ctx.guarded("K1", lambda: rule_k1(ctx))
     ctx.guarded("A1", lambda: rule_a1(ctx))
     ctx.guarded("C1", lambda: rule_c1(ctx))
